@@ -67,13 +67,127 @@ Proof.
   rewrite (parse_digits_any s 10 (zeros n) false H). unfold has_digit in D. rewrite D. cbn [orb negb].
   destruct (parse_digits_cong s 10 (zeros n) false H) as (q & E & L).
   rewrite value_zeros, zeros_length in *. split; [| exact L].
+  assert (OK : limbs_ok (fst (parse_digits s 10 (zeros n) false))).
+  { (* limbs of the result are in range: every step is mul_add_small *)
+    clear E L D. generalize (zeros_ok n). generalize (zeros n). generalize false.
+    induction s as [|c s IH]; intros any out Ho; cbn [parse_digits fst]; [exact Ho|].
+    inversion H as [|c' s' Hc Hs]; subst.
+    destruct (c =? 95); [apply IH; auto|].
+    destruct ((digit_value c <? 0) || (digit_value c >=? 10)); [exact Ho|].
+    apply IH; auto. apply mul_add_small_ok. }
   apply cong_mod with (q := q); [| exact E].
-  rewrite <- L. apply value_bound.
-  (* limbs of the result are in range: every step is mul_add_small *)
-  clear E L D. generalize (zeros_ok n). generalize (zeros n). generalize false.
-  induction s as [|c s IH]; intros any out Ho; cbn [parse_digits fst]; [exact Ho|].
-  inversion H as [|c' s' Hc Hs]; subst.
+  pose proof (value_bound _ OK) as VB. rewrite L in VB. exact VB.
+Qed.
+
+Lemma parse_base_plain s : all_digits 10 s -> parse_base s = (10, s).
+Proof.
+  intros H. destruct s as [|c s]; [reflexivity|].
+  inversion H as [|c' s' Hc Hs]; subst. apply dec_char in Hc.
+  unfold parse_base. destruct (Z.eq_dec c 48) as [->|NE].
+  - destruct s as [|d s]; [reflexivity|].
+    inversion Hs as [|d' s'' Hd Hs']; subst. apply dec_char in Hd.
+    destruct (dec_char_plain d Hd) as (_ & _ & _ & X1 & X2 & X3 & X4 & X5 & X6).
+    rewrite X1, X2, X3, X4, X5, X6. reflexivity.
+  - destruct c as [|p|p]; try reflexivity.
+    do 6 (destruct p as [p|p|]; try reflexivity). exfalso. apply NE. reflexivity.
+Qed.
+
+Lemma parse_uint_minus s n : all_digits 10 s ->
+  parse_uint (45 :: s) true n = (snd (parse_digits s 10 (zeros n) false), fst (parse_digits s 10 (zeros n) false), true).
+Proof.
+  intros H. unfold parse_uint. cbn [skip_space]. change (is_space 45) with false. cbv iota.
+  change ((45 =? 43) || (45 =? 45)) with true. cbv iota. change (45 =? 45) with true. cbn [andb negb].
+  rewrite (parse_base_plain s H). destruct (parse_digits s 10 (zeros n) false) as [o a]. reflexivity.
+Qed.
+
+Lemma parse_digits_ok : forall s base out any, limbs_ok out -> limbs_ok (fst (parse_digits s base out any)).
+Proof.
+  induction s as [|c s IH]; intros base out any Ho; cbn [parse_digits fst]; [exact Ho|].
   destruct (c =? 95); [apply IH; auto|].
-  destruct ((digit_value c <? 0) || (digit_value c >=? 10)); [exact Ho|].
-  apply IH; auto. apply mul_add_small_ok.
+  destruct ((digit_value c <? 0) || (digit_value c >=? base)); [exact Ho|].
+  apply IH. apply mul_add_small_ok.
+Qed.
+
+(* "-digits" read into a signed type: minus the denoted number, wrapped *)
+Lemma s_from_string_minus_correct n s : n <> O -> all_digits 10 s -> has_digit s ->
+  svalue (s_from_string n (45 :: s)) = wrapS (modulus n) (- num 10 s 0).
+Proof.
+  intros Hn H D. unfold s_from_string. rewrite (parse_uint_minus s n H).
+  rewrite (parse_digits_any s 10 (zeros n) false H). unfold has_digit in D. rewrite D. cbn [orb negb].
+  destruct (parse_digits_cong s 10 (zeros n) false H) as (q & E & L).
+  rewrite value_zeros, zeros_length in *.
+  pose proof (parse_digits_ok s 10 (zeros n) false (zeros_ok n)) as OK.
+  set (out := fst (parse_digits s 10 (zeros n) false)) in *.
+  destruct (negate_cong out OK) as [q1 E1].
+  assert (LN : length (negate_limbs out) = n) by (rewrite negate_length; exact L).
+  rewrite <- LN. apply svalue_wrap with (q := q1 - q).
+  - apply negate_ok.
+  - intros X. rewrite X in LN. cbn in LN. congruence.
+  - rewrite LN. rewrite E1, E, L. ring.
+Qed.
+
+(* plain digits read into a signed type *)
+Lemma s_from_string_plain_correct n s : n <> O -> all_digits 10 s -> has_digit s ->
+  svalue (s_from_string n s) = wrapS (modulus n) (num 10 s 0).
+Proof.
+  intros Hn H D. unfold s_from_string. rewrite (parse_uint_plain s true n H).
+  rewrite (parse_digits_any s 10 (zeros n) false H). unfold has_digit in D. rewrite D. cbn [orb negb].
+  destruct (parse_digits_cong s 10 (zeros n) false H) as (q & E & L).
+  rewrite value_zeros, zeros_length in *.
+  pose proof (parse_digits_ok s 10 (zeros n) false (zeros_ok n)) as OK.
+  set (out := fst (parse_digits s 10 (zeros n) false)) in *.
+  rewrite <- L. apply svalue_wrap with (q := q); auto.
+  - intros X. rewrite X in L. cbn in L. congruence.
+  - rewrite L. rewrite E. ring.
+Qed.
+
+(* signed number -> text: digits of the value, or '-' followed by the digits of its magnitude *)
+Lemma s_to_string_correct v : limbs_ok v -> v <> [] -> (length v <= 4)%nat ->
+  exists s, s_to_string v = Some s /\
+    (0 <= svalue v -> all_digits 10 s /\ num 10 s 0 = svalue v) /\
+    (svalue v < 0 -> exists d, s = 45 :: d /\ all_digits 10 d /\ num 10 d 0 = - svalue v).
+Proof.
+  intros Hv Hne L. unfold s_to_string. rewrite (is_negative_spec v Hv Hne).
+  pose proof (value_bound v Hv) as VB.
+  assert (N0 : length v <> O) by (destruct v; cbn; congruence).
+  pose proof (modulus_even (length v) N0) as EV.
+  unfold svalue.
+  destruct (Z.leb_spec (modulus (length v) / 2) (value v)); destruct (Z.ltb_spec (value v) (modulus (length v) / 2)); try lia; cbn [negb].
+  - unfold abs_limbs. rewrite (is_negative_spec v Hv Hne).
+    destruct (Z.leb_spec (modulus (length v) / 2) (value v)); [|lia]. cbn [fst].
+    destruct (to_decimal_correct (negate_limbs v) (negate_ok v) ltac:(rewrite negate_length; exact L)) as (d & E & A & N).
+    rewrite E. exists (45 :: d). split; [reflexivity|]. split; [lia|]. intros _. exists d. split; [reflexivity|]. split; [exact A|].
+    rewrite N, (negate_limbs_correct v Hv).
+    symmetry. apply cong_mod with (q := 1); lia.
+  - destruct (to_decimal_correct v Hv L) as (s & E & A & N). exists s. split; [exact E|]. split; [auto | lia].
+Qed.
+
+(* printing an unsigned value and reading the text back *)
+Lemma decimal_roundtrip : forall a, limbs_ok a -> a <> [] -> (length a <= 4)%nat ->
+  exists s, u_to_string a = Some s /\ value (u_from_string (length a) s) = value a.
+Proof.
+  intros a Ha Hne L. destruct (to_decimal_correct a Ha L) as (s & E & A & N).
+  exists s. split; [exact E|].
+  assert (N0 : length a <> O) by (destruct a; cbn; congruence).
+  assert (D : has_digit s).
+  { unfold u_to_string, to_decimal in E.
+    (* every character produced by the digit loop is 48 + r, never '_' : use the value-free characterisation *)
+    assert (G : forall fuel work acc s, to_decimal_go fuel work acc = Some s ->
+                (acc = [] -> is_zero work = false) -> (acc <> [] -> has_digit acc) -> has_digit s).
+    { induction fuel as [|f IH]; intros work acc s0 E0 H1 H2; cbn [to_decimal_go] in E0.
+      - destruct (is_zero work) eqn:Z; [injection E0 as <-; destruct acc; [specialize (H1 eq_refl); congruence | apply H2; discriminate] | discriminate].
+      - destruct (is_zero work) eqn:Z; [injection E0 as <-; destruct acc; [specialize (H1 eq_refl); congruence | apply H2; discriminate]|].
+        destruct (div_small work 10) as [q r] eqn:DS.
+        apply (IH q ((48 + r) :: acc) s0 E0); [discriminate|]. intros _.
+        unfold has_digit. cbn [existsb].
+        assert (R : 0 <= r < 10).
+        { pose proof (Z.mod_pos_bound) as MB. clear -DS. destruct work as [|x t]; cbn [div_small] in DS.
+          - injection DS as <- <-. lia.
+          - destruct (div_small t 10) as [qt rem]. injection DS as <- <-. apply Z.mod_pos_bound. lia. }
+        replace (48 + r =? 95) with false by (symmetry; apply Z.eqb_neq; lia). reflexivity. }
+    destruct (is_zero a) eqn:Z.
+    - injection E as <-. reflexivity.
+    - apply (G 80%nat a [] s E); [intros _; exact Z | congruence]. }
+  destruct (u_from_string_correct (length a) s A D) as [V _]. rewrite V, N.
+  apply Z.mod_small. apply value_bound, Ha.
 Qed.
